@@ -3,6 +3,7 @@ package main
 import (
 	"fmt"
 	"go/token"
+	"go/types"
 	"sort"
 	"strings"
 
@@ -59,7 +60,60 @@ func (n *c20namer) paramOfCallee(c *ssa.Call) string {
 			return n.role(fv)
 		}
 	}
+	// a package helper that runs the callback it is given unless that is nil (`callErrorFunc(errorFunc)`)
+	if h := calleeOf(c); h != nil && n.fn != nil && h.Pkg == n.fn.Pkg && len(c.Call.Args) == 1 && callsParamOnceUnlessNil(h) {
+		if u, ok := c.Call.Args[0].(*ssa.UnOp); ok && u.Op == token.MUL {
+			if fv, ok := u.X.(*ssa.FreeVar); ok {
+				return n.role(fv)
+			}
+		}
+	}
 	return ""
+}
+
+// callsParamOnceUnlessNil: h(f func()) calls f exactly once on every path, except on paths that found f nil, where
+// it calls nothing; it has no other effect (no other calls, no stores).
+func callsParamOnceUnlessNil(h *ssa.Function) bool {
+	if h == nil || h.Blocks == nil || len(h.Params) != 1 || h.Signature.Results().Len() != 0 {
+		return false
+	}
+	if _, isSig := h.Params[0].Type().Underlying().(*types.Signature); !isSig {
+		return false
+	}
+	for _, b := range h.Blocks {
+		for _, in := range b.Instrs {
+			switch x := in.(type) {
+			case *ssa.Store, *ssa.MapUpdate, *ssa.Go, *ssa.Defer, *ssa.Send:
+				return false
+			case ssa.CallInstruction:
+				if x.Common().Value != ssa.Value(h.Params[0]) {
+					return false
+				}
+			}
+		}
+	}
+	paths, ok := enumPaths(h, nil, 64)
+	if !ok {
+		return false
+	}
+	for _, p := range paths {
+		calls := 0
+		for _, in := range p.Instrs() {
+			if _, isC := in.(ssa.CallInstruction); isC {
+				calls++
+			}
+		}
+		foundNil := false
+		for _, cp := range p.Conds {
+			if x, tnn, isNT := nilTest(cp.Cond); isNT && x == ssa.Value(h.Params[0]) && cp.Pol != tnn {
+				foundNil = true
+			}
+		}
+		if !(calls == 1 && !foundNil || calls == 0 && foundNil) {
+			return false
+		}
+	}
+	return len(paths) > 0
 }
 
 // c20roles: the constructors' parameters by position (0 = receiver). The rules speak of these roles; what the
